@@ -208,6 +208,33 @@ Theorem every_required_privilege_must_hold : forall u dflt s d p,
 Proof. exact every_requirement_must_hold. Qed.
 Print Assumptions every_required_privilege_must_hold.
 
+(* ---- from the translated table to the behaviour ---- *)
+(* EVERY route of the table translated in this run that is not on the statement's whitelist, whatever its handler does
+   (any kind k): a request without valid credentials has no effect and is answered 401 (or 403 by a rejecting literal) *)
+Theorem anonymous_refused_everywhere : forall r k cfg us rq,
+  In r routes -> public r = false ->
+  auth_enabled cfg = true -> admin_exists us = true -> (forall u, ~ valid_creds cfg us (rq_creds rq) u) ->
+  snd (serve shape_now cfg us r k rq) = [] /\ (fst (serve shape_now cfg us r k rq) = 401 \/ fst (serve shape_now cfg us r k rq) = 403).
+Proof. exact anonymous_refused_everywhere_lemma. Qed.
+Print Assumptions anonymous_refused_everywhere.
+
+(* a route of the table with the authenticated signature whose handler decides by AuthorizeUnrestricted (the kind the
+   correspondence accepts only when the translated handler facts say so) refuses every valid non-administrator *)
+Theorem admin_routes_refuse_non_administrators : forall r cfg us rq u,
+  In r routes -> r_sig r = SigUser ->
+  auth_enabled cfg = true -> admin_exists us = true -> valid_creds cfg us (rq_creds rq) u -> u_admin u = false ->
+  serve shape_now cfg us r KAdminOnly rq = (403, []).
+Proof. exact admin_routes_refuse_lemma. Qed.
+Print Assumptions admin_routes_refuse_non_administrators.
+
+Theorem repository_reads_refuse_without_privilege : forall r cfg us rq u,
+  In r routes -> r_sig r = SigUser ->
+  auth_enabled cfg = true -> admin_exists us = true -> valid_creds cfg us (rq_creds rq) u ->
+  ~ has_priv u ReadPriv (rq_db rq) -> ~ has_priv u WritePriv (rq_db rq) ->
+  serve shape_now cfg us r KRepoSee rq = (403, []).
+Proof. exact see_routes_refuse_lemma. Qed.
+Print Assumptions repository_reads_refuse_without_privilege.
+
 (* ---- log-store listings (GET /api/v1/repository, repair 3986ddb) ---- *)
 (* a listing returns exactly the repositories of the catalogue the user may read or write ... *)
 Theorem listing_exact : forall u dbs d,
